@@ -44,7 +44,13 @@ THEOREMS = [
     'AbacusVerif.Power.codedPhase_unit',
     'AbacusVerif.Power.codedW_pos',
     'AbacusVerif.Power.calc_power_symmetries',
+    # Props/C13Link.lean: the deposit hypotheses discharged from the C06 theorems
+    'AbacusVerif.Power.c06Deposit_eq_scatter',
+    'AbacusVerif.Power.c06_isDeposit',
+    'AbacusVerif.Power.cubic_of_nonneg',
+    'AbacusVerif.Power.calc_power_symmetries_c06',
 ]
+LEAN_MODULES = ['AbacusVerif.Props.C13', 'AbacusVerif.Props.C13Link']
 DRIVER = 'drv_c13'
 
 # ---- stated bounds -------------------------------------------------------------------------------
@@ -70,8 +76,10 @@ TRUSTED = [
     'float32/float64 rounding inside numba (fastmath) and scipy.fft.rfftn: compared under the stated bounds '
     '(RTOL_META=5e-5 of the column scale for calc_power outputs; 5e-5 / 1e-12 / 2e-6 of max|F| for get_field_fft)',
     'scipy.fft.rfftn computes the DFT (spot-checked on every run against the defining finite sum on meshes <= 6^3)',
-    'the deposit (tsc_parallel / cic_serial) is additive over particles and roll-equivariant: hypotheses of the '
-    'theorems here, proved for the C06 model and tied to the code by the C06 check',
+    'the deposit (tsc_parallel / cic_serial) is additive over particles and roll-equivariant: hypotheses '
+    '(IsDeposit) of the general theorems, discharged in Props/C13Link.lean from the C06 theorems '
+    '(deposit_superposition, roll_equivariant) for cubic meshes with n >= 2; the C06 model is tied to the code '
+    'by the C06 check',
     'the (k, mu) binning is a per-bin weighted mean over a particle-independent classification of the stored modes '
     '(C08 model)',
 ]
